@@ -11,7 +11,8 @@
        every solution array, every model parameter, every stored particle-definition field,
        for any number of particles / compounds / tracers / rows
   * `…_arrays_exact`       the solution arrays alone, with no hypothesis on the particles
-  * `…_resave_fixpoint`    save (load (save x)) = save x
+  * `…_resave_fixpoint`    save (load (save x)) = save x  (bent / stratified plume, particle lists);
+       `sbm_resave_raises`: FALSE for the single bubble model as written (the writer raises)
   * `load_save_id`         full strength under `NoLoss`
   * `load_save_id_false`, `…_not_saved`  the full statement is FALSE for the code as written:
        concrete witnesses (two definitions, one file) for delta, lag_time, the optional user-data
@@ -51,8 +52,8 @@ theorem sbm_load_save_partial (h : Header) (s : Sbm α) (f : File α) (ucomp : L
     (hK : s.K_T0 = s.particle.K_T)
     (hwf : ParticleWF 0 s.composition ucomp Ta s.particle)
     (hy : ∀ row ∈ s.y, row.length = (s.y.headD []).length) (hlen : s.y.length = s.t.length) :
-    loadSbm f = { s with particle := s.particle.forget } := by
-  obtain ⟨tbl, hst, rfl⟩ := saveSbm_eq h s f hs
+    loadSbm f = { s with particle := s.particle.forget, K_T0_0d := true } := by
+  obtain ⟨tbl, h0d, hst, rfl⟩ := saveSbm_eq h s f hs
   obtain ⟨h1, h2, h3, h4⟩ := sbm_arrays h s _ hs hy hlen
   have ht := saveTable_some _ _ _ _ _ hst
   have hp : loadParticles ((header h).add ((sbmOwn s).add (tbl.toFile 0))) = ([s.particle.forget], s.composition) := by
@@ -62,11 +63,11 @@ theorem sbm_load_save_partial (h : Header) (s : Sbm α) (f : File α) (ucomp : L
     have := loadParticlesT_mkTable 0 (by decide) s.composition ucomp [s.particle] []
       (by intro p hp; rw [List.mem_singleton.mp hp]; exact hwf.ta_irrel)
     simpa [mkTable] using this
-  rcases s with ⟨particle, composition, K_T0, delta_t, t, y⟩
+  rcases s with ⟨particle, composition, K_T0, K_T0_0d, delta_t, t, y⟩
   simp only at h1 h2 h3 h4 hp ⊢
   unfold loadSbm at h1 h2 h3 h4 ⊢
   simp only [Sbm.mk.injEq]
-  refine ⟨?_, ?_, h3, h4, h1, h2⟩
+  refine ⟨?_, ?_, h3, trivial, h4, h1, h2⟩
   · rw [hp]; rfl
   · rw [hp]
 
@@ -167,15 +168,22 @@ theorem particles_resave_fixpoint (pt : Nat) (hpt : pt ≤ 2) (chem ucomp : List
     saveTable pt r.2 r.1 (r.1.map (·.K_T)) = some tbl := by
   simp only [particles_load_save_partial pt hpt chem ucomp Ta ps tbl hs hwf, forget_K_T, saveTable_forget, hs]
 
-theorem sbm_resave_fixpoint (h : Header) (s : Sbm α) (f : File α) (ucomp : List String) (Ta : α)
+/-- re-saving a reloaded single-particle simulation RAISES in the code as written (the reader
+    leaves `K_T0` as a 0-d array, the particle writer indexes it): the fixpoint is false here -/
+theorem sbm_resave_raises (h : Header) (f : File α) : saveSbm h (loadSbm f) = none := by
+  simp [saveSbm, loadSbm]
+
+/-- … and holds as soon as `K_T0` is handed over as a float again -/
+theorem sbm_resave_fixpoint_partial (h : Header) (s : Sbm α) (f : File α) (ucomp : List String) (Ta : α)
     (hs : saveSbm h s = some f) (hK : s.K_T0 = s.particle.K_T)
     (hwf : ParticleWF 0 s.composition ucomp Ta s.particle)
     (hy : ∀ row ∈ s.y, row.length = (s.y.headD []).length) (hlen : s.y.length = s.t.length) :
-    saveSbm h (loadSbm f) = some f := by
+    saveSbm h { loadSbm f with K_T0_0d := false } = some f := by
+  obtain ⟨_, h0d, _, _⟩ := saveSbm_eq h s f hs
   rw [sbm_load_save_partial h s f ucomp Ta hs hK hwf hy hlen, ← hs]
   have := saveTable_forget 0 s.composition [s.particle] [s.K_T0]
   simp only [List.map_cons, List.map_nil] at this
-  simp only [saveSbm, this]
+  simp only [saveSbm, this, h0d]
   rfl
 
 theorem bpm_resave_fixpoint (h : Header) (s : Bpm α) (f : File α) (ucomp : List String)
@@ -421,7 +429,7 @@ theorem cj_not_saved :
 noncomputable example : ∃ (s : Sbm ℝ), (saveSbm ⟨"t", "prf.nc", "i", "c", "m"⟩ s).isSome ∧
     s.K_T0 = s.particle.K_T ∧ ParticleWF 0 s.composition ["methane"] (280 : ℝ) s.particle ∧
     (∀ row ∈ s.y, row.length = (s.y.headD []).length) ∧ s.y.length = s.t.length ∧ s.t.length = 2 := by
-  refine ⟨⟨wP, ["methane", "ethane"], 1, 10, [0, 10], [[0, 0, 300, 1e-6, 1e-6, 5], [0, 0, 290, 9e-7, 9e-7, 4]]⟩, ?_,
+  refine ⟨⟨wP, ["methane", "ethane"], 1, false, 10, [0, 10], [[0, 0, 300, 1e-6, 1e-6, 5], [0, 0, 290, 9e-7, 9e-7, 4]]⟩, ?_,
     rfl, witness_particle_wf 0, by simp, rfl, rfl⟩
   simp [saveSbm, saveTable, saveOk, m0Ok, userOk, userComposition, nchemsOf, wP, wBase, wFluid, wUser, findUser]
 
